@@ -303,6 +303,40 @@ pub fn k_air_ood_frame_parse() {
 // 20-byte instance); its callee Table::from_bytes is under contract below; BatchMerkleProof::read_from
 // is not (see the note in the c19_merkle unit), only its component decoders are (c26_serde unit).
 
+// C07: Commitments (one trace root, the constraint root, one FRI root) and a digest survive the round trip
+//# harness: fn=Commitments::new, write_into, read_from; Deserializable / Serializable for ByteDigest<32>; label=bounded(3 digests of 32 symbolic bytes); tier=quick; props=C07; timeout=900
+#[cfg_attr(kani, kani::proof)]
+#[cfg_attr(kani, kani::unwind(100))]
+#[cfg_attr(kani, kani::stub(alloc::fmt::format, vs::fake_format))]
+pub fn k_air_commitments_roundtrip() {
+    use crypto::Hasher;
+    type Dg = <H as Hasher>::Digest;
+    let raw: [u8; 96] = vs::any_bytes();
+    let mut r = SliceReader::new(&raw);
+    let d0 = Dg::read_from(&mut r).unwrap();
+    let d1 = Dg::read_from(&mut r).unwrap();
+    let d2 = Dg::read_from(&mut r).unwrap();
+    // a digest is its 32 bytes
+    let mut wd = vs::ArrayWriter::<32>::new();
+    d0.write_into(&mut wd);
+    let mut same = wd.pos == 32;
+    let mut i = 0;
+    while i < 32 {
+        same = same && wd.buf[i] == raw[i];
+        i += 1;
+    }
+    vcheck!("C07.digest.roundtrip", same);
+    let c = Commitments::new::<H>(alloc::vec![d0], d1, alloc::vec![d2]);
+    let mut w = vs::ArrayWriter::<98>::new();
+    c.write_into(&mut w);
+    vcheck!("C07.commitments.encoded_len", w.pos == 98);
+    let mut r = SliceReader::new(&w.buf);
+    let back = Commitments::read_from(&mut r);
+    vcheck!("C07.commitments.roundtrip", back == Ok(c));
+    vcheck!("C07.commitments.consumed", !r.has_more_bytes());
+    vreach!("C07.commitments.reach");
+}
+
 // (A guard for repaired defect F8a - Queries::parse must return Err for a unique-query count of 0 or above 255 -
 // was attempted with empty query data and only the count symbolic: CBMC aborts in propositional reduction, as on
 // every other instantiation of Queries::parse tried. The repair is NOT guarded by an obligation; stated in
